@@ -1,5 +1,6 @@
 import GoCrypt.Model.TypeCache
 import GoCrypt.Model.Codec
+import GoCrypt.Props.TypeInfoIR
 
 /-!
 # C18 — codec results do not depend on call history or on value/pointer form
@@ -112,4 +113,12 @@ example : (getTypeInfo (fun _ => .ok {}) (runHistory (fun _ => .ok {}) [] [⟨"A
 #print axioms invalid_tags_every_call
 #print axioms reports_own_struct
 
+-- the type-info layer IS the current code (Props/TypeInfoIR.lean): getRawTypeInfo (tag-parsing loop, embedded-struct recursion), (*typeInfo).field (with sort.Slice as ANY sorted permutation),
+-- normalize and the cold path of getTypeInfo regenerated from hash/typeinfo.go on every run (records behind pointers, reflect.Type as operations over the struct descriptions) = fieldOpts/rawFields/resolveParam/normalizeLoop/typeInfoOf
+#print axioms GoCrypt.TypeInfoIR.no_unknown_nodes
+#print axioms GoCrypt.TypeInfoIR.normalize_eq_normalizeLoop
+#print axioms GoCrypt.TypeInfoIR.normalize_eq_normalizeLoop_exact
+#print axioms GoCrypt.TypeInfoIR.getRawTypeInfo_eq_rawFields
+#print axioms GoCrypt.TypeInfoIR.getTypeInfo_cold_eq_typeInfoOf
+#print axioms GoCrypt.TypeInfoIR.getTypeInfo_cold_eq_typeInfoOf_exact
 end GoCrypt.C18
